@@ -33,7 +33,15 @@ def walk_zorg_page(
     tree = parser.prog()  # type: ignore[no-untyped-call]
     compiler = ZorgFileCompiler(zorg_page, error_manager)
     walker = antlr4.ParseTreeWalker()
-    walker.walk(compiler, tree)
+    try:
+        walker.walk(compiler, tree)
+    except Exception:
+        # The parse tree of a file with syntax errors is a best-effort
+        # recovery that our listener cannot always walk (e.g. a file that
+        # ends in '[^').
+        if not error_manager.errors:
+            raise
+        zorg_page.has_errors = True
     return zorg_page
 
 
